@@ -318,6 +318,17 @@ func (s *Service) Stop(clearFutures bool) bool {
 	if clearFutures {
 		s.futureStore.Protect(false)
 		s.futureStore.Clear()
+
+		// also cancel the futures of commands that have not been dispatched
+	drain:
+		for {
+			select {
+			case cmd := <-s.commandQueue:
+				cmd.future.Cancel(nil)
+			default:
+				break drain
+			}
+		}
 	}
 
 	return true
